@@ -10,7 +10,9 @@ namespace Ag
 structure Ext where
   libm1 : String → F64 → F64
   libm2 : String → F64 → F64 → F64
-  parseDate : String → Option Int      -- ns since epoch; `none` = dtparse error
+  /-- `dtparse::parse`: `none` = the string is not in the table supplied with the request
+  (outside the model), `some none` = dtparse error, `some (some ns)` = ns since the epoch -/
+  parseDate : String → Option (Option Int)
   lower : String → Option String       -- `none` = outside the modelled case mapping
   upper : String → Option String
 
@@ -146,8 +148,9 @@ def string1 (ext : Ext) (n : String) (s : String) : Outcome Value :=
   match n with
   | "parseDate" =>
     match ext.parseDate s with
-    | some ns => .ok (.date ns)
-    | Option.none => .err "FunctionFailed"
+    | some (some ns) => .ok (.date ns)
+    | some Option.none => .err "FunctionFailed"
+    | Option.none => .unmodelled "parseDate of a string outside the supplied table"
   | "parseHex" =>
     let t := Text.trim s.toList
     match parseHexI64 (stripAll0x t t.length) with
